@@ -127,6 +127,7 @@ type Truth struct {
 	Start        time.Time // effective start (starttime, else authtime)
 	End          time.Time
 	Addrs        [][]byte // nil = none
+	AddrTypes    []int32  // address type of each entry of Addrs
 	SessKey      rk.EncryptionKey
 	AuthKeyOK    bool
 	AuthUsage    uint32
@@ -268,9 +269,21 @@ func (m *Minter) Mint(spec ReqSpec, s time.Time, skew time.Duration, r *core.Rng
 		etp.CAddr = []rk.HostAddress{{Type: 24, Addr: ClientAddrMatch6}}
 	case "other4-match6":
 		etp.CAddr = []rk.HostAddress{{Type: 2, Addr: ClientAddrOther}, {Type: 24, Addr: ClientAddrMatch6}}
+	// address lists as Windows KDCs write them: the client's NetBIOS name (type 20, 16 bytes) next to
+	// - or instead of - its network addresses; and an entry of another type whose bytes are those of
+	// the client's IPv4 address (an address is its type and its bytes)
+	case "nb-other":
+		etp.CAddr = []rk.HostAddress{{Type: 20, Addr: []byte("CLIENTHOST      ")}, {Type: 2, Addr: ClientAddrOther}}
+	case "nb-match":
+		etp.CAddr = []rk.HostAddress{{Type: 20, Addr: []byte("CLIENTHOST      ")}, {Type: 2, Addr: ClientAddrMatch}}
+	case "nb-only":
+		etp.CAddr = []rk.HostAddress{{Type: 20, Addr: []byte("CLIENTHOST      ")}}
+	case "match-bytes-as-type3":
+		etp.CAddr = []rk.HostAddress{{Type: 3, Addr: ClientAddrMatch}}
 	}
 	for _, a := range etp.CAddr {
 		tr.Addrs = append(tr.Addrs, a.Addr)
+		tr.AddrTypes = append(tr.AddrTypes, int32(a.Type))
 	}
 	for _, d := range ds {
 		if strings.HasPrefix(d.Kind, "pac-") {
@@ -529,13 +542,14 @@ func Accept(tr *Truth, st ServiceSettings, kt *KeytabModel, now time.Time, repla
 	}
 	// 3. addresses
 	var ca []byte
+	caType := int32(2)
 	switch st.ClientAddr {
 	case "match":
 		ca = ClientAddrMatch
 	case "other":
 		ca = ClientAddrOther
 	case "match6":
-		ca = ClientAddrMatch6
+		ca, caType = ClientAddrMatch6, 24
 	}
 	if len(tr.Addrs) == 0 {
 		if st.RequireAddr {
@@ -545,8 +559,8 @@ func Accept(tr *Truth, st ServiceSettings, kt *KeytabModel, now time.Time, repla
 		either("ticket-has-addresses-but-service-has-no-client-address")
 	} else {
 		found := false
-		for _, a := range tr.Addrs {
-			if string(a) == string(ca) {
+		for i, a := range tr.Addrs {
+			if string(a) == string(ca) && (i >= len(tr.AddrTypes) || tr.AddrTypes[i] == caType) {
 				found = true
 			}
 		}
